@@ -312,6 +312,13 @@ pub struct C14 {
     pub name: &'static str,
 }
 
+thread_local! {
+    /// set when a conducted dispatch of the current plan needed fallback grants or was abandoned:
+    /// the implementation does not offer the concurrency the layout promises, so the remaining
+    /// fault points of this plan run without schedule control (free run) instead of crawling
+    static C14_DEGRADED: std::cell::Cell<bool> = const { std::cell::Cell::new(false) };
+}
+
 fn must_not_run(flat: &Flat, s: usize) -> BTreeSet<usize> {
     // transitive dependents of s and of every batch that encloses s, plus everything inside them
     let mut out = BTreeSet::new();
@@ -347,7 +354,17 @@ impl C14 {
         for &a in armed {
             b.ctx.fault[a].store(point, SeqCst);
         }
+        let strategy = if C14_DEGRADED.with(|d| d.get()) {
+            None
+        } else {
+            strategy
+        };
         let out = run_call(b, &world, entry, strategy, Duration::from_millis(3000));
+        if let Some(r) = &out.report {
+            if r.fallback_grants > 2 || r.abandoned {
+                C14_DEGRADED.with(|d| d.set(true));
+            }
+        }
         for &a in armed {
             b.ctx.fault[a].store(FAULT_NONE, SeqCst);
         }
@@ -471,7 +488,11 @@ impl Prop for C14 {
         "small generated plans (<= 10 ops, batches, thread-locals); ENUMERATED per plan: every system (each position of each group and stage, thread-local, controller, inside batches) as the panicking one x fault point {before its fetch, inside run, after its release} x {dispatch (parallel), dispatch_seq + thread-local} x sibling phase forced by the conductor {panicking system first = siblings before their fetch, maximal overlap = siblings inside run, panicking system last = siblings released}; pairs variant: two systems of one stage armed at once; oracle: catch_unwind(dispatch) is Err with the HarnessFault payload of an armed system, no counter above 1 x enclosing dispatch counts, no transitive dependent ran, afterwards every cell probes free and the next unarmed dispatch runs everything exactly once; evaluations = fault points; non-trivial = plan with >= 2 groups in a stage or a dependency edge; distinct = plan hash"
     }
     fn gen(&self, src: &mut Src) -> C14Case {
-        let threads = [2u8, 4, 8][src.pick(3)];
+        let threads = if self.cfg.max_ops > 12 {
+            16
+        } else {
+            [2u8, 4, 8][src.pick(3)]
+        };
         C14Case {
             plan: gen_plan(src, &self.cfg),
             threads,
@@ -487,6 +508,7 @@ impl Prop for C14 {
         let controllable = conc <= threads && !crate::p_sched::has_multi(&b);
         let n = flat.sys.len();
         let mut points = 0u64;
+        C14_DEGRADED.with(|d| d.set(false));
         if self.pairs {
             // two systems of one stage, different groups, at once
             let l0 = b.layouts.by_bid[&0].clone();
@@ -560,6 +582,9 @@ impl Prop for C14 {
         }
         if controllable {
             st.class("plans_schedule_controlled");
+        }
+        if C14_DEGRADED.with(|d| d.get()) {
+            st.class("plans_degraded_to_free_run");
         }
         let wide = b.layouts.by_bid.values().any(|l| l.stages.iter().any(|s| s.len() >= 2));
         let edges = flat.sys.iter().any(|s| !s.deps.is_empty());
